@@ -33,7 +33,7 @@ BOUNDS = {"quick": "8 base arrays (empty row first/middle/last/none/all, one row
 Q_BASES = [[2, 0, 3], [0, 2, 1], [1, 3, 0], [2, 1, 3], [0, 0], [3], [], [1, 0, 0, 2]]
 T_BASES = Q_BASES + [[1, 1, 1], [0], [2, 2], [3, 0, 1]]
 PPARTS_Q = 4
-FOPS = [["add1"], ["neg"], ["mulcol"], ["cat"], ["sort"], ["cumsum"], ["diff"], ["where", 3], ["float"], ["mat"]]
+FOPS = [["add1"], ["neg"], ["mulcol"], ["cat"], ["sort"], ["cumsum"], ["diff"], ["where", 3], ["float"], ["mat"], ["astype_same"]]
 ALIAS_SELS = ("E", "T0", ["t", "E"])
 
 
@@ -133,7 +133,7 @@ def model_step(rows, op):
         return [[v if v > op[1] else -v for v in r] for r in rows]
     if k == "float":
         return [[float(v) for v in r] for r in rows]
-    if k == "mat":
+    if k in ("mat", "astype_same"):
         return [list(r) for r in rows]
     raise ValueError(op)
 
@@ -163,6 +163,8 @@ def impl_step(x, op):
     if k == "mat":
         x.tolist()
         return x
+    if k == "astype_same":
+        return x.astype(x.dtype)
     raise ValueError(op)
 
 
@@ -261,7 +263,9 @@ READ_PROBES = [
     ("any", lambda x: x.any(axis=-1)), 
     ("argmax", lambda x: x.argmax(axis=-1)), ("keepdims", lambda x: x.sum(axis=-1, keepdims=True)),
     ("add.reduce", lambda x: np.add.reduce(x, axis=-1)),
-    ("cumsum", lambda x: np.cumsum(x, axis=-1)), 
+    ("cumsum", lambda x: np.cumsum(x, axis=-1)), ("x.cumsum", lambda x: x.cumsum(axis=-1)), ("x.nonzero()", lambda x: x.nonzero()),
+    ("x.argmin", lambda x: x.argmin(axis=-1)), ("x.all", lambda x: x.all(axis=-1)), ("x.equals", lambda x: bool(x.equals(x + 0))),
+    ("x.cumsum(None)", lambda x: x.cumsum()), 
     ("sort", lambda x: x.sort(axis=-1)), ("unique", lambda x: np.unique(x, axis=-1)),
     ("unique_counts", lambda x: np.unique(x, axis=-1, return_counts=True)), 
     ("nonzero_m", lambda x: (x > 2).nonzero()),
